@@ -159,6 +159,25 @@ def run_case(sh, s, d, case):
         for p in list(stable):
             if p not in files:
                 del stable[p]
+        # every committed blob revision still in the storage reads back through a historical connection at its tid
+        keys = [k2 for k2 in got if content_at.get(k2) is not None]
+        if keys and rnd.random() < 0.3:
+            (ho, ht) = rnd.choice(sorted(keys))
+            htm = transaction.TransactionManager()
+            try:
+                hc = db.open(htm, at=ht)
+                try:
+                    with hc.get(ho).open('r') as f:
+                        hb = f.read()
+                finally:
+                    hc.close()
+                sh.count('historical_blob_reads')
+                if hb != content_at[(ho, ht)]:
+                    sh.violation('c13:%s:historical-read-of-blob-revision-differs' % kind, dict(wit, oid=ho, tid=ht), case)
+                    return False
+            except POSKeyError as e:
+                sh.violation('c13:%s:historical-read-of-blob-revision-raises-POSKeyError' % kind, dict(wit, oid=ho, tid=ht, exc=repr(e)[:120]), case)
+                return False
         tf = tmp_files(blob_dir)
         if tf:
             sh.violation('c13:%s:temporary-blob-file-left-behind' % kind, dict(wit, files=[os.path.basename(x) for x in tf[:3]]), case)
